@@ -27,6 +27,16 @@ func (s *sim) applyKnobs(cfg *config.Configuration) {
 	if v := p.Knob("txcachevol", -1); v >= 0 {
 		cfg.TxCacheVolume = uint32(v)
 	}
+	// irreversibility regime (C30): the CRC-only DPoS era and the height from
+	// which the state tracks a last irreversible height, inside the run
+	if v := p.Knob("crconly", 0); v > 0 {
+		cfg.CRCOnlyDPOSHeight = uint32(v)
+		cfg.DPoSConfiguration.RevertToPOWStartHeight = uint32(v + p.Knob("revertpowoff", 0))
+		// the DPoS state processes blocks from VoteStartHeight /
+		// CRCOnlyDPOSHeight-PreConnectOffset on (checkpoint StartHeight)
+		cfg.VoteStartHeight = 1
+		cfg.DPoSConfiguration.PreConnectOffset = 1
+	}
 	// compressed issuance schedule (C11)
 	if v := p.Knob("newissue", -1); v >= 0 {
 		cfg.NewELAIssuanceHeight = uint32(v)
@@ -107,6 +117,13 @@ func (s *sim) checkAll() {
 			continue
 		}
 		sig := "C12/heavier-valid-chain-known"
+		if fork != nil && fork.height == lih && tip.height > s.node.cfg.CRCOnlyDPOSHeight {
+			// the lowest block to detach is the one just above the last
+			// irreversible height: kept apart (IsIrreversible's boundary)
+			sig += "/fork-exactly-at-last-irreversible-height"
+		} else if fork != nil && lih == 0 && tip.height-fork.height > 6 && tip.height > s.node.cfg.CRCOnlyDPOSHeight {
+			sig += "/deeper-than-six-before-an-irreversible-height-is-recorded"
+		}
 		if s.failedSwitch {
 			// consequence of an earlier failed switch in this very run; kept
 			// apart so the generic signature still reports any other cause
